@@ -53,7 +53,7 @@ CLAIMED['C08'] = {
              'the Moore-Penrose inverse of -H whenever pinv satisfies the Penrose equations; compiled-table rows hold the quantity their label names; '
              'LR-test statistic, df and roles. Stream stats runs bioResults on synthetic raw outcomes (K = 1..8; Hessian negative definite / singular / '
              'indefinite / absent; PSD BHHH; with and without null likelihood, bounds, bootstrap) and on real estimations and checks EVERY reported number '
-             'against its defining formula in exact rational arithmetic.'),
+             'against its defining formula in exact rational arithmetic. The same oracle is applied to HISTORIES of one raw-outcome object (stream history): the object is reported, then its raw inputs are replaced (Hessian, BHHH, bootstrap sample, likelihoods, sizes, estimates; matrices may appear or disappear) and it is reported again through every entry point of results.py (same object, deep copy, write_pickle + pickle_file before / after the update, plain pickle); every report of the history must follow from the inputs held at that step (sampled, not proved).'),
     'note': KERNEL + 'py2v and the specialised extractors in lib/props/C08.py; Section variables for numpy/scipy (fmax, Phi, pinv with the Penrose equations '
             'as hypothesis, chi2_ppf); nan_to_num = identity on finite input; scipy.linalg.pinv/eigh/svd, np.cov, pandas exact-checked on samples, not '
             'verified; HTML/LaTeX/F12 renderings are C14\'s.',
@@ -81,7 +81,7 @@ CLAIMED['C18'] = {
              'point, brute force included; the outside good has unbounded marginal utility at 0; the symbolic validation utility evaluates (evalX) to the numeric '
              'closed form; relabelling by any injective map commutes with the marginal-utility and consumption tables; the rational checker kkt_checkQ is sound. '
              'The three defects found (label/position test, comparison ordering, stale dual after the budget stop) are repaired in /repo; their witnesses remain in corpus/C18. Tied by streams pieces, trees (structural expr_eqb) and forecast (bisection output, public API, brute force and relabelings; every forecast '
-             're-checked by kkt_checkQ in Coq on exact rationals).'),
+             're-checked by kkt_checkQ in Coq on exact rationals). lower_bound_dual_variable of the four variants is translated on every run and proved to be exactly the infimum of the admissible dual variables of the chosen set (T18j); the forecast stream covers NonMonotonic in both dual-sign regimes (budgets beyond the satiation point give a negative dual variable), with an asserted coverage floor.'),
     'note': KERNEL + 'PARTIAL: convergence of the bisection to its tolerance, the greedy chosen-set identification and SLSQP are numerical and only sampled; '
             'floating-point rounding outside the theorems; the specialised extractor in lib/props/C18.py; CPython set order modelled as an arbitrary duplicate-free list.',
 }
@@ -96,7 +96,7 @@ CLAIMED['C11'] = {
              'implementation doubles with the model on observed RNG output for all 21 types and direct generator calls. PARTIAL: the accuracy of the normal '
              'quantile is not proved: AS241 as published is the specification, the implementation is swept against it and against Phi(z) = u; the branch '
              'structure of the code (generated from source) is proved to differ from AS241 (T11i_wichura_branches_refuted) and to coincide exactly on '
-             '[0.075, 0.45] U (0.925, 1): reported as a KNOWN-FINDING (cannot be repaired: an existing test pins numbers computed with it).'),
+             '[0.075, 0.45] U (0.925, 1): reported as a KNOWN-FINDING (cannot be repaired: an existing test pins numbers computed with it). Sizes include the boundaries of the Halton doubling construction (size + skip = base^t), more than 100000 generated points, histories of several calls in one process, and tables built by Database.generate_draws with dict order different from names order.'),
     'note': KERNEL + 'the C11 ast extractor; RNG observation by wrapping np.random.uniform / shuffle; numpy RNG an arbitrary input; libm erfc, log, sqrt; binary64 '
             'rounding bounded by the stated per-stream tolerances.',
 }
@@ -125,7 +125,7 @@ CLAIMED['C09'] = {
              'draw shared by all rows of the block; per-individual values and the total are invariant under any reordering of the table and follow an injective '
              'renaming of individuals. Tied by streams panel_map (refusal, map, row permutation, sample size compared exactly inside Coq, including remove '
              'histories) and panel_ll (simulate, calculate_likelihood, get_value_c per-individual values vs the model over Q at relative 1e-12 with a '
-             'deterministic tagged draw generator, permuted individuals and rows, 1-4 threads).'),
+             'deterministic tagged draw generator, permuted individuals and rows, 1-4 threads). Also for histories of one Database object (state machine Model/Panel.v, T09g-T09i, axiom-free): a declaration on any column (including a second one on another column) is accepted exactly on contiguous columns and a refusal leaves the state unchanged; after any sequence of declarations, direct edits of database.data, removals and earlier evaluations, an evaluation uses the map of the current table on the current column with one series of draws per individual of that table. Stream panel_ll replays such histories step by step against the Coq state machine, with every one-expression entry point and BIOGEME simulate / likelihood as first evaluation after an edit or a declaration; the scaled value, gradient, Hessian and BHHH are checked to equal unscaled / number of individuals.'),
     'note': KERNEL + 'pandas primitives as modelled (sort_values = some sorted permutation, unique = first appearance); the C++ engine loop and draw indexing are '
             'sampled, not verified; the rule "variables inside PanelLikelihoodTrajectory" is C12\'s.',
 }
@@ -141,7 +141,7 @@ CLAIMED['C17'] = {
              '1 - 1/mu_m^2 within a nest, 0 across, 1 on the diagonal (entry formula translated from nests.py). Ties: every builder compared node-for-node with the '
              'Python builder (expr_eqb in Coq); piecewise_function, exec(segmented_code()) and correlation() against exact rational evaluation; engine values against '
              'interval enclosures of evalX and the closed forms, including l within 2e-5 of the switch. PARTIAL: normal/lognormal integrate-to-one reduced to the '
-             'Gaussian integral (assumed); the Box-Cox jump at |l| = 1e-5 bounded only numerically.'),
+             'Gaussian integral (assumed); the Box-Cox jump at |l| = 1e-5 bounded only numerically. The regression log-likelihood / likelihood trees equal the normal log density / density with scale |sigma| for every sigma != 0 (T17h_regression_any_sign); regression helpers are evaluated with sigma of both signs, nest parameters and mu of both signs.'),
     'note': KERNEL + 'py2v and the specialised extractor in lib/props/C17.py; the expression bridge; evalI soundness (Proofs/EvalIP.v); PhiI_series proved to enclose Phi_def = 1/2 + RInt npdf 0 x (Proofs/PhiP.v).',
 }
 
@@ -173,7 +173,7 @@ CLAIMED['C04'] = {
              'under blocks n T (bit-for-bit); calculate_likelihood(_and_derivatives), scaled and not, must lie within the summation bound of the exact rational '
              'sum of weight x simulate, for thread counts {1,2,3,n-1,n,n+3,0}, row permutations, 2-4-way splits, a thread-count change through the setter and '
              'before/after a bootstrap run. PARTIAL on schedules: real thread interleavings and data races in the C++ are outside the model; the thorough stress '
-             'run (run-to-run identical doubles) is a test, not a proof.'),
+             'run (run-to-run identical doubles) is a test, not a proof. Also proved: the parts the library itself makes hold every row exactly once, hence the log likelihood and every gradient / Hessian / BHHH component summed over them is the data-set total: extract_rows on interleaved ranges (any step m > 0), reversed ranges and valid position lists; array_split-style Database.split(k) for every remainder of n by k and each of its estimation / validation pairs; mdcev_row_split; a constant weight multiplies the unweighted sum (T04g, T04d_constant_weight). Tied by stream library_splits (range rows and slice sizes compared inside Coq) and by partition and sum oracles on real Database.extract_rows / split / mdcev_row_split calls (k not dividing n, groups=, panel data, bare Numeric / constant-expression / constant x column weights, formula names loglike / weights). PARTIAL: split(groups=...) and the panel branch of split are checked by the oracles only; the shuffle is an arbitrary permutation.'),
     'note': KERNEL + 'py2v, the C04 ast extractors and the engine-call scan; Model/LogLike.v as a reading of cythonbiogeme biogeme.cc / evaluateExpressions.cc (external, '
             'not verified); equalities over reals hold on doubles up to the stated summation bound.',
 }
@@ -197,7 +197,7 @@ CLAIMED['C06'] = {
              'stream build demands identical Python trees for both syntaxes on every case); generating-function consistency: for the trees of '
              'get_mev_generating_for_nested and get_mev_for_nested, d/dV_i G(e^V) = e^{V_i} e^{ln G_i} (Coquelicot is_derive) for every available alternative, '
              'including alternatives outside every nest (that each nest lists each alternative once follows from the builder returning Ok: check_partition refuses a repetition, T06v_repeated_alternative_refused, demanded of the implementation by stream build); check_union can never fail after Nests.__init__. Stream pairs compares engine values of both sides of each '
-             'reduction (1e-9) and central differences of G with exp(V_i + ln G_i) (1e-5); a regression of the repaired alone term is reported with a concrete witness.'),
+             'reduction (1e-9) and central differences of G with exp(V_i + ln G_i) (1e-5); a regression of the repaired alone term is reported with a concrete witness. Legacy tuples equal nest objects bearing any names, including equal names arising through re-use of an unnamed nest object from an earlier specification (model of the naming of Nests.__init__, checked against Python in stream build; T06d_legacy_syntax_named_*). Stream pairs also compares named / reused nest objects with the tuple syntax numerically for nested / nested+mu / cnl / cnl+mu, and every reduction also with availabilities given as plain Python numbers containing a 0.'),
     'note': KERNEL + 'same trusted base as C05 plus Coquelicot; reductions stated under exactness of Python-side float constants (trivial for Beta/Numeric parameters, '
             'proved for 1.0).',
 }
